@@ -173,7 +173,8 @@ def canon(obj, o=EXACT):
     if isinstance(obj, CIMParameter):
         return ('param', _n(obj.name, o), obj.type, obj.is_array,
                 obj.array_size, _n(obj.reference_class, o),
-                obj.embedded_object, vcanon(obj.value, o),
+                None if 'param_embedded_object' in o.ignore
+                else obj.embedded_object, vcanon(obj.value, o),
                 _children((canon(q, o) for q in obj.qualifiers.values()), o))
     if isinstance(obj, CIMMethod):
         return ('meth', _n(obj.name, o), obj.return_type,
